@@ -142,7 +142,7 @@ def template_of_path(it, s):
     return out
 
 
-def nested_template(it, s, a, depth=0):
+def nested_template(it, s, a, depth=0, all_paths=False):
     """template of a value of a crate-local helper type with its own Display impl (a struct built just to be
     printed), spliced into the template of the caller; None when `a` is not such a value"""
     f = it.f
@@ -163,9 +163,48 @@ def nested_template(it, s, a, depth=0):
     st.events = []
     res = it2.run(imp, [("ref", st.alloc(a)), ("ref", st.alloc(("sym", "fmt")))], st)
     oks = [(s2, rv) for s2, rv in res if ok_path(it2, s2, rv)]
+    if all_paths:
+        ts = []
+        for s2, rv in oks:
+            t_ = template_of_path(it2, s2)
+            if t_ not in ts:
+                ts.append(t_)
+        return ts
     if len(oks) != 1:
         return None
     return template_of_path(it2, oks[0][0])
+
+
+def expand_helper_holes(it, s, template):
+    """a helper value printed by a loop (`Layout::Dict(entries)` writing its entries one by one) has one template per
+    unrolling: the enclosing template is multiplied out -> list of templates"""
+    outs = [[]]
+    for e in template:
+        alts = None
+        if e[0] == "hole" and e[2] == "display":
+            a = e[1]
+            n = 0
+            while a[0] in ("rref", "ref") and n < 6:
+                a = a[1] if a[0] == "rref" else it.load_ptr(s, a[1])
+                n += 1
+            if a[0] == "adt":
+                alts = nested_template(it, s, a, all_paths=True)
+        if not alts:
+            outs = [o + [e] for o in outs]
+        else:
+            outs = [o + list(alt) for o in outs for alt in alts]
+        if len(outs) > 64:
+            raise FmtUnknown("too many unrollings of nested helper values")
+    merged = []
+    for o in outs:
+        m = []
+        for e in o:
+            if e[0] == "lit" and m and m[-1][0] == "lit":
+                m[-1] = ("lit", m[-1][1] + e[1])
+            else:
+                m.append(e)
+        merged.append(m)
+    return merged
 
 
 def ok_path(it, s, rv):
@@ -256,9 +295,9 @@ def display_templates(f, adt, impl_path, prefix="self"):
         for s, rv in res:
             if not ok_path(it, s, rv):
                 continue      # a write failed: the partial output of an error path is not a rendering
-            t_ = template_of_path(it, s)
-            if t_ not in ts:
-                ts.append(t_)
+            for t_ in expand_helper_holes(it, s, template_of_path(it, s)):
+                if t_ not in ts:
+                    ts.append(t_)
         out[var["name"]] = ts
     return out
 
